@@ -29,7 +29,19 @@ def main():
     run = runner.Run(a.pid, a.tier, a.seed)
     try:
         mod.check(run)
-    except Exception:
+    except Exception as e:
+        tb = traceback.extract_tb(e.__traceback__)
+        repo = os.path.realpath(os.environ.get("SPHERICAL_REPO", "/repo"))
+        in_impl = [f for f in tb if os.path.realpath(f.filename).startswith(repo + os.sep)]
+        if in_impl and not isinstance(e, (MemoryError, KeyboardInterrupt)):
+            # the implementation itself raised on an input the sweep considers legitimate: that is a finding, not an
+            # infrastructure failure (the sweep stops here; whatever it covered so far is in the evidence)
+            last = in_impl[-1]
+            run.violation("implementation-raised-during-sweep", f"{os.path.relpath(last.filename, repo)}:{last.name}",
+                          {"exception": repr(e), "raised_at": f"{os.path.relpath(last.filename, repo)}:{last.lineno}",
+                           "harness_frame": next((f"{os.path.basename(f.filename)}:{f.lineno}: {f.line}" for f in reversed(tb) if "/vlib/" in f.filename), "")},
+                          "a result (the sweep only issues requests the property places in range)", repr(e), detail="".join(traceback.format_exception(e))[-3000:])
+            sys.exit(run.finish())
         traceback.print_exc()
         print(f"[{a.pid}] infrastructure error", file=sys.stderr)
         sys.exit(2)
